@@ -426,11 +426,11 @@ int Kernel::k_epoll_wait(int epfd, void *events, int maxevents, int timeout_ms, 
         if (!cand.empty()) {
             size_t total = cand.size();
             if (R->cfg.shuffle_batch && cand.size() > 1) {
-                for (size_t i = cand.size() - 1; i > 0; i--) std::swap(cand[i], cand[R->r_epoll.below(i + 1)]);
+                for (size_t i = cand.size() - 1; i > 0; i--) std::swap(cand[i], cand[epoll_rng().below(i + 1)]);
             }
             size_t n = std::min((size_t)maxevents, cand.size());
-            if (n > 1 && R->cfg.subset_p > 0 && R->r_epoll.chance(R->cfg.subset_p)) {
-                n = 1 + R->r_epoll.below(n - 1);
+            if (n > 1 && R->cfg.subset_p > 0 && epoll_rng().chance(R->cfg.subset_p)) {
+                n = 1 + epoll_rng().below(n - 1);
                 R->ctr.fault("batch_subset");
             }
             // fairness: a registration passed over 3 times goes first
